@@ -100,7 +100,32 @@ NEEDS = {
  "C17-h1": ("dotless-exponent Display fast path forgets a failed write when another piece succeeds", "value shown as <digits>e+N and a streaming serializer whose writer fails at one particular write (here: a transient ENOSPC under serde_json::to_writer)"),
  "C17-h2": ("visit_u128 through `as i128`", "a peer calling visit_u128 with a value >= 2^127"),
  "C17-h3": ("json_num_option serializes None with serialize_unit", "a peer format that distinguishes unit from none (JSON prints null for both)"),
+ "C04-i1": ("plain notation of pure fractions through format!(\"{:0>width$}\") (16-bit runtime width since rustc 1.87)", "plain notation, |value| < 1, scale > 65535: panic"),
+ "C04-i2": ("Display for BigDecimalRef passes the thresholds swapped", "`{}` on a reference in the two threshold windows"),
+ "C04-i3": ("scientific notation of zero writes 0e{scale} instead of 0e{-scale}", "zero with non-zero scale, compared on scale"),
+ "C04-j1": ("plain notation delegates zero padding to a helper that silently refuses beyond 1000 zeros", "plain notation with scale < -1000"),
+ "C04-j2": ("parser moves a run of >= 512 trailing zeros of a dot-less, exponent-less text into the scale", "scale exactly 0, digit string ending in >= 512 zeros, Display or plain notation"),
+ "C04-j3": ("Display drops the e+N suffix unless a precision was requested", "ONLY in a build with RUST_BIGDECIMAL_FMT_EXPONENTIAL_UPPER_THRESHOLD > 20: behaviour in the default configuration is unchanged, so C04 as checked (default configuration) still holds; compile-time configuration is property C20's subject, which is not claimed"),
+ "C12-i1": ("limb-wise equality returns early", "coefficient 10^s + m*2^64 at scale s in 1..19: is_one() shortcut"),
+ "C12-i2": ("power-of-two shortcut decided by to_f64()", "x within 1e-16 relative of 2^k (k in 1..30) and p >= 17"),
+ "C12-i3": ("trailing zeros of the operand stripped with a u8 counter", "coefficient with >= 256 trailing zeros (e.g. (-0.125).with_scale(280)): off by 10^256 in release, overflow panic in debug"),
+ "C12-j1": ("equality stops reading high limbs", "int_val = 10^scale (mod 2^64), int_val >= 2^64, scale 1..19"),
+ "C12-j2": ("hand-written is_one() does not check for digits above the one when scale >= 20", "integers ending in 1 stored with >= 20 fractional zeros (21.000...0); also a hang when an iterate reaches 11.000...0"),
+ "C12-j3": ("Newton correction factor trimmed to 2(p+2)+6 digits", "1/x within 10^-(p+8) working units of T + u^2/(4T) for a half-way point T of the (p+2)-digit working value: the two neighbours map onto each other and the loop alternates for ever (about 10^-(p+9) per random input)"),
+ "C14-i1": ("u64 product reduced_mantissa * 5^k allowed for k <= 14 (5^14 > 2^32)", "exactly 14 fractional binary digits, odd 32-bit reduced mantissa >= 3022314550 (about 4e-11 per random f64)"),
+ "C14-i2": ("19-digit zero chunks stripped after the trimming count was computed", "stored integer of >= 44 digits ending in >= 19 zeros with scale >= 19 (with_scale padding)"),
+ "C14-i3": ("owned to_f64 shortcut through to_i128 returns None beyond 2^127 (and computes is_integer for any scale)", "whole number stored with >= 19 fractional zeros and magnitude >= 1.7e38; for huge scales the shortcut never returns"),
+ "C14-j1": ("u64 product reduced_mantissa * 5^k allowed for k <= 14", "exactly 14 fractional binary digits, 32-bit reduced mantissa >= 3022314550"),
+ "C14-j2": ("19-digit zero chunks stripped with a stale trimming count", ">= 44 digits ending in >= 19 zeros, non-zero scale"),
+ "C14-j3": ("zero special case folded into the i32-overflow arm", "zero with scale in -309..-(2^31-1): 0 * inf = NaN"),
+ "C17-i1": ("visit_str error message slices its input at byte 40", "rejected string longer than 40 bytes with a multi-byte character straddling byte 40: panic instead of Err"),
+ "C17-i2": ("json_num_option limit skipped for zero", "Option adapter, zero mantissa, |scale| beyond the limit"),
+ "C17-i3": ("parser keeps its digit buffer in a thread-local and forgets to clear it on the exponent-overflow error path", "history: a number with fraction digits rejected for exponent overflow, then any fractional number parsed by the same thread gets the stale digits glued in front (0.75 -> 250.75)"),
+ "C17-j1": ("json_num_option through a hand-written visitor without visit_unit", "null in the Option adapter behind #[serde(flatten)] / an untagged enum (serde replays buffered null as unit)"),
+ "C17-j2": ("parser error message slices its input at byte 64", "string longer than 64 bytes with a multi-byte character straddling byte 64 on one of two early error paths: panic"),
+ "C17-j3": ("json_num limit skipped for zero", "json_num, zero mantissa, |scale| beyond the limit"),
 }
+OUT_OF_SCOPE = {"C04-j3"}
 def sh(cmd, **kw):
     return subprocess.run(cmd, shell=True, capture_output=True, text=True, **kw)
 if sh("git -C /repo status --porcelain --untracked-files=no").stdout.strip():
@@ -123,6 +148,8 @@ for name in sorted(os.listdir(os.path.join(HERE, "seeded"))):
     rule = re.search(r"rule=(\S+)", viol[0]).group(1) if viol else ""
     run = re.search(r"run=(\d+)", viol[0]).group(1) if viol else ""
     verdict = {0: "MISSED", 1: "CAUGHT"}.get(r.returncode, f"HARNESS-ERROR({r.returncode})")
+    if name in OUT_OF_SCOPE and r.returncode == 0:
+        verdict = "NOT-APPLICABLE (no behaviour change in the default build configuration)"
     what, needs = NEEDS.get(name, ("", ""))
     conf = open(os.path.join(d, "confirmation.txt")).read().strip().splitlines() if os.path.exists(os.path.join(d, "confirmation.txt")) else []
     meta = {"id": name, "breaks_property": prop, "change": what, "needs_to_manifest": needs,
@@ -136,8 +163,9 @@ for name in sorted(os.listdir(os.path.join(HERE, "seeded"))):
     print(name, verdict, rule, "run", run, f"{dt:.0f}s", flush=True)
 if not only:
     with open(os.path.join(HERE, "SENSITIVITY.md"), "w") as f:
-        f.write("# Sensitivity: seeded changes vs. checks\n\nEach change compiles, passes the 861-test suite, and breaks its property (demonstration in `seeded/<id>/demo.rs`, confirmation in `confirmation.txt`). Written by thirty-two sub-agents in five rounds that saw only the property text (rounds 2-3: asked for subtle changes that random testing would most likely miss; round 4: changes confined to shared helper code outside the property's own files; round 5: changes that manifest only through the environment - a failing caller-supplied writer, a platform-dependent exp2 / powi result, a serde peer). Regenerate with `tools/run_seeded.py` (applies each patch to /repo, runs the quick check, reverts).\n\n| seeded change | property | quick check | rule that fired | first failing run | what it needs |\n|---|---|---|---|---|---|\n")
+        f.write("# Sensitivity: seeded changes vs. checks\n\nEach change compiles, passes the 861-test suite, and breaks its property (demonstration in `seeded/<id>/demo.rs`, confirmation in `confirmation.txt`). Written by forty sub-agents in six rounds that saw only the property text (rounds 2-3: asked for subtle changes that random testing would most likely miss; round 4: changes confined to shared helper code outside the property's own files; round 5: changes that manifest only through the environment - a failing caller-supplied writer, a platform-dependent exp2 / powi result, a serde peer; round 6: told to assume very thorough checking and to find what would still slip through). Regenerate with `tools/run_seeded.py` (applies each patch to /repo, runs the quick check, reverts).\n\n| seeded change | property | quick check | rule that fired | first failing run | what it needs |\n|---|---|---|---|---|---|\n")
         for (name, prop, verdict, rule, run) in rows:
             f.write(f"| {name} | {prop} | {verdict} | {rule} | {run} | {NEEDS.get(name, ('',''))[1]} |\n")
         caught = sum(1 for r in rows if r[2] == "CAUGHT")
-        f.write(f"\n{caught} of {len(rows)} caught by the quick tier.\n\nReverted tree: every check exits 0 (see evidence/).\n")
+        na = sum(1 for r in rows if r[2].startswith("NOT-APPLICABLE"))
+        f.write(f"\n{caught} of {len(rows) - na} applicable changes caught by the quick tier ({na} not applicable: see its row).\n\nReverted tree: every check exits 0 (see evidence/).\n")
